@@ -349,6 +349,27 @@ def _judge_agg(p, fi, gi, where, having, fail, key_state='new'):
         if other:
             fail('order', f'groups must be output in order of first appearance: the group container is iterated through `{show(other[0][1])}`')
             return
+        def container(x):
+            return x == GROUPS or (isinstance(x, T) and (x.op == 'dict' or (x.op == 'new' and x.args[0] == 'defaultdict')))
+
+        def about_container(x):
+            return container(x) or (isinstance(x, T) and x.op == 'cmp' and isinstance(x.args[1], T) and x.args[1].op == 'call' and
+                                    x.args[1].args[0] == 'len' and len(x.args[1].args[1]) == 1 and container(x.args[1].args[1][0]))
+        if p.outcome == 'return' and p.decisions and about_container(p.decisions[-1][0]):
+            # `if not groups: return ..., []`: nothing was collected, nothing is lost
+            t_, o_ = p.decisions[-1]
+            lenz = not container(t_) and t_.args[2] == 0
+            empty = (container(t_) and not o_) or (lenz and ((t_.args[0] == '==' and o_) or (t_.args[0] in ('!=', '>') and not o_)))
+            rows_ = p.value.args[1] if isinstance(p.value, T) and p.value.op == 'tuple' and len(p.value.args) == 2 else None
+            if empty and isinstance(rows_, SList) and not rows_.items and not rows_.opaque_tail:
+                return
+            raise AnalysisError(f'{fi.fq}: returns before the output loop on `{show(t_)[:60]}`: shape not understood')
+        if p.outcome == 'return' and p.decisions:
+            tests = [f'`{show(t)[:50]}` is {o}' for t, o in p.decisions]
+            fail('early-return', f'when {" and ".join(tests)} the aggregate query returns `{show(p.value)[:60]}` after the scan without '
+                 f'walking the groups it collected: the groups (one row per key, or the single row of a query without keys) are lost '
+                 f'on a condition that is not part of the statement')
+            return
         raise AnalysisError(f'{fi.fq}: output loop over the groups not found')
     if early_exits(p, GROUPS):
         fail(f'having:{hdesc}', f'with HAVING {hdesc} the output loop stops at this group: later groups are lost')
